@@ -4,7 +4,7 @@
   receivers' theorems need (Props/C15Bytes, C17Bytes, C12Bytes, C02Bytes, C04Bytes,
   C06Bytes, C07Bytes).
 
-  * inversion: a successful read is `Wire`'s or (when `Wire` says unmodelled) `Codec`'s;
+  * inversion: a successful read is `Codec`'s or (when `Codec` says unmodelled) `Wire`'s;
   * the tail of every packet stream a front end produces is a clean end or a
     plain decode error — never an `Err.panic` (the `htail` hypothesis of the
     receivers' no-panic theorems is discharged for every byte string);
@@ -34,36 +34,182 @@ theorem SigReadPlain.no_panic {sr : Sign.SigRead} (h : SigReadPlain sr) : ∀ e,
   intro e he
   rcases h e he with h | h <;> rw [h] <;> rfl
 
-/-! ### `orCodec` -/
+/-! ### `orWire` -/
 
-theorem orCodec_ok {α : Type} {w : Wire.Front α} {c : Unit → Except String α} {x : α}
-    (h : Front.orCodec w c = .ok x) :
-    w = .ok x ∨ ∃ why, w = .unmodelled why ∧ c () = .ok x := by
-  unfold Front.orCodec at h
-  cases w with
+theorem orWire_ok {α : Type} {c : Except String α} {w : Unit → Wire.Front α} {x : α}
+    (h : Front.orWire c w = .ok x) :
+    c = .ok x ∨ ∃ why, c = .error why ∧ w () = .ok x := by
+  unfold Front.orWire at h
+  cases c with
   | ok y => simp at h; exact Or.inl (by rw [h])
-  | unmodelled why =>
+  | error why =>
     right
     refine ⟨why, rfl, ?_⟩
-    cases hc : c () with
-    | ok y => simp [hc] at h; rw [h]
-    | error e => simp [hc] at h
+    cases hw : w () with
+    | ok y => simp [hw] at h; rw [h]
+    | unmodelled e => simp [hw] at h
 
-theorem orCodec_error {α : Type} {w : Wire.Front α} {c : Unit → Except String α} {why : String}
-    (h : Front.orCodec w c = .error why) :
-    w = .unmodelled why ∧ ∃ why', c () = .error why' := by
-  unfold Front.orCodec at h
-  cases w with
+theorem orWire_error {α : Type} {c : Except String α} {w : Unit → Wire.Front α} {why : String}
+    (h : Front.orWire c w = .error why) :
+    c = .error why ∧ ∃ why', w () = .unmodelled why' := by
+  unfold Front.orWire at h
+  cases c with
   | ok y => simp at h
-  | unmodelled w' =>
-    cases hc : c () with
-    | ok y => simp [hc] at h
-    | error e => simp [hc] at h; exact ⟨by rw [h], e, rfl⟩
+  | error w' =>
+    cases hw : w () with
+    | ok y => simp [hw] at h
+    | unmodelled e => simp [hw] at h; exact ⟨by rw [h], e, rfl⟩
 
-/-- the front end is the spec-shaped reader wherever that one answers -/
-theorem orCodec_of_wire {α : Type} {w : Wire.Front α} {c : Unit → Except String α} {x : α}
-    (h : w = .ok x) : Front.orCodec w c = .ok x := by
+/-- the front end is go-codec's typed reader wherever that one answers -/
+theorem orWire_of_codec {α : Type} {c : Except String α} {w : Unit → Wire.Front α} {x : α}
+    (h : c = .ok x) : Front.orWire c w = .ok x := by
   subst h; rfl
+
+/-- … and the spec-shaped reader only where the typed reader gives up -/
+theorem orWire_of_wire {α : Type} {c : Except String α} {w : Unit → Wire.Front α} {x : α} {why : String}
+    (hc : c = .error why) (hw : w () = .ok x) : Front.orWire c w = .ok x := by
+  subst hc; simp [Front.orWire, hw]
+
+theorem orWire_error_iff {α : Type} {c : Except String α} {w : Unit → Wire.Front α} {why : String} :
+    Front.orWire c w = .error why ↔ c = .error why ∧ ∃ why', w () = .unmodelled why' := by
+  refine ⟨orWire_error, ?_⟩
+  rintro ⟨rfl, why', hw⟩
+  simp [Front.orWire, hw]
+
+/-! ### `settle`: same header read, same items; the tail is `Codec`'s or a clean end -/
+
+theorem settle_ok {η β : Type} {decH : Codec.Dec η} {decB : η → Option (Codec.Dec β)} {fin : η → β → Bool} {msg : Bytes}
+    {c : Except String (HeaderRead η × PStream β)} {hr : HeaderRead η} {ps : PStream β}
+    (h : Front.settle decH decB fin msg c = .ok (hr, ps)) :
+    ∃ ps0, c = .ok (hr, ps0) ∧ ps.items = ps0.items ∧ (ps.tail = ps0.tail ∨ ps.tail = .eof) := by
+  cases c with
+  | error w => cases h
+  | ok x =>
+    obtain ⟨hr0, ps0⟩ := x
+    cases hr0 with
+    | ok hb h0 =>
+      simp only [Front.settle] at h
+      split at h
+      · split at h
+        · split at h
+          · cases h; exact ⟨_, rfl, rfl, Or.inr rfl⟩
+          · cases h; exact ⟨_, rfl, rfl, Or.inl rfl⟩
+        · cases h; exact ⟨_, rfl, rfl, Or.inl rfl⟩
+      · cases h; exact ⟨_, rfl, rfl, Or.inl rfl⟩
+    | unreadable => cases h; exact ⟨_, rfl, rfl, Or.inl rfl⟩
+    | undecodable hb => cases h; exact ⟨_, rfl, rfl, Or.inl rfl⟩
+
+theorem settle_error {η β : Type} {decH : Codec.Dec η} {decB : η → Option (Codec.Dec β)} {fin : η → β → Bool} {msg : Bytes}
+    {c : Except String (HeaderRead η × PStream β)} {w : String} :
+    Front.settle decH decB fin msg c = .error w ↔ c = .error w := by
+  constructor
+  · intro h
+    cases c with
+    | error w' => exact h
+    | ok x =>
+      obtain ⟨hr0, ps0⟩ := x
+      cases hr0 with
+      | ok hb h0 =>
+        simp only [Front.settle] at h
+        split at h
+        · split at h
+          · split at h
+            · cases h
+            · cases h
+          · cases h
+        · cases h
+      | unreadable => cases h
+      | undecodable hb => cases h
+  · intro h
+    subst h
+    rfl
+
+/-- a stream that `Codec` ends cleanly is left alone -/
+theorem settle_of_eof {η β : Type} {decH : Codec.Dec η} {decB : η → Option (Codec.Dec β)} {fin : η → β → Bool} {msg : Bytes}
+    {hr : HeaderRead η} {items : List (Option β)} :
+    Front.settle decH decB fin msg (.ok (hr, ⟨items, .eof⟩)) = .ok (hr, ⟨items, .eof⟩) := by
+  unfold Front.settle
+  cases hr <;> simp
+
+/-- where `Codec` reads a message to a clean end, the front end is `Codec` -/
+theorem readEnc_of_codec_eof {msg : Bytes} {hr : HeaderRead EncHeader} {items : List (Option EncBlock)}
+    (h : Codec.splitEnc msg = .ok (hr, ⟨items, .eof⟩)) : Front.readEnc msg = .ok (hr, ⟨items, .eof⟩) := by
+  unfold Front.readEnc; rw [h]; exact orWire_of_codec settle_of_eof
+
+theorem readSigncrypt_of_codec_eof {msg : Bytes} {hr : HeaderRead EncHeader} {items : List (Option SigncryptBlock)}
+    (h : Codec.splitSigncrypt msg = .ok (hr, ⟨items, .eof⟩)) : Front.readSigncrypt msg = .ok (hr, ⟨items, .eof⟩) := by
+  unfold Front.readSigncrypt; rw [h]; exact orWire_of_codec settle_of_eof
+
+theorem readSig_of_codec_eof {msg : Bytes} {hr : HeaderRead SigHeader} {items : List (Option SigBlock)}
+    (h : Codec.splitSig msg = .ok (hr, ⟨items, .eof⟩)) : Front.readSig msg = .ok (hr, ⟨items, .eof⟩) := by
+  unfold Front.readSig; rw [h]; exact orWire_of_codec settle_of_eof
+
+/-- in general: the same header read and items, the tail `Codec`'s or a clean end -/
+theorem readEnc_of_codec {msg : Bytes} {hr : HeaderRead EncHeader} {ps : PStream EncBlock}
+    (h : Codec.splitEnc msg = .ok (hr, ps)) :
+    ∃ ps', Front.readEnc msg = .ok (hr, ps') ∧ ps'.items = ps.items ∧ (ps'.tail = ps.tail ∨ ps'.tail = .eof) := by
+  unfold Front.readEnc
+  rw [h]
+  generalize hs : Front.settle _ _ _ msg (Except.ok (hr, ps)) = c
+  cases c with
+  | error w => rw [settle_error] at hs; cases hs
+  | ok x =>
+    obtain ⟨hr', ps'⟩ := x
+    obtain ⟨ps0, e, a, b⟩ := settle_ok hs
+    cases e
+    exact ⟨ps', rfl, a, b⟩
+
+theorem readSigncrypt_of_codec {msg : Bytes} {hr : HeaderRead EncHeader} {ps : PStream SigncryptBlock}
+    (h : Codec.splitSigncrypt msg = .ok (hr, ps)) :
+    ∃ ps', Front.readSigncrypt msg = .ok (hr, ps') ∧ ps'.items = ps.items ∧ (ps'.tail = ps.tail ∨ ps'.tail = .eof) := by
+  unfold Front.readSigncrypt
+  rw [h]
+  generalize hs : Front.settle _ _ _ msg (Except.ok (hr, ps)) = c
+  cases c with
+  | error w => rw [settle_error] at hs; cases hs
+  | ok x =>
+    obtain ⟨hr', ps'⟩ := x
+    obtain ⟨ps0, e, a, b⟩ := settle_ok hs
+    cases e
+    exact ⟨ps', rfl, a, b⟩
+
+theorem readSig_of_codec {msg : Bytes} {hr : HeaderRead SigHeader} {ps : PStream SigBlock}
+    (h : Codec.splitSig msg = .ok (hr, ps)) :
+    ∃ ps', Front.readSig msg = .ok (hr, ps') ∧ ps'.items = ps.items ∧ (ps'.tail = ps.tail ∨ ps'.tail = .eof) := by
+  unfold Front.readSig
+  rw [h]
+  generalize hs : Front.settle _ _ _ msg (Except.ok (hr, ps)) = c
+  cases c with
+  | error w => rw [settle_error] at hs; cases hs
+  | ok x =>
+    obtain ⟨hr', ps'⟩ := x
+    obtain ⟨ps0, e, a, b⟩ := settle_ok hs
+    cases e
+    exact ⟨ps', rfl, a, b⟩
+
+theorem codecDetached_ok {sigMsg : Bytes} {hr : HeaderRead SigHeader} {sr : Sign.SigRead}
+    (h : Front.codecDetached sigMsg = .ok (hr, sr)) :
+    ∃ d, Codec.splitDetached sigMsg = .ok (hr, d) ∧ sr = Front.detSig d := by
+  unfold Front.codecDetached at h
+  split at h
+  · rename_i hr' d hsd
+    cases h
+    exact ⟨d, hsd, rfl⟩
+  · cases h
+
+theorem codecDetached_of_ok {sigMsg : Bytes} {hr : HeaderRead SigHeader} {d : Codec.DetSig}
+    (h : Codec.splitDetached sigMsg = .ok (hr, d)) : Front.codecDetached sigMsg = .ok (hr, Front.detSig d) := by
+  unfold Front.codecDetached; rw [h]
+
+theorem codecDetached_error {sigMsg : Bytes} {why : String} :
+    Front.codecDetached sigMsg = .error why ↔ Codec.splitDetached sigMsg = .error why := by
+  unfold Front.codecDetached
+  constructor
+  · intro h
+    split at h
+    · cases h
+    · rename_i w hw; cases h; exact hw
+  · intro h; rw [h]
 
 /-! ### tails of `Wire.split` -/
 
@@ -130,6 +276,38 @@ theorem codec_blocks_tail {β : Type} (dec : Codec.Dec β) : ∀ (fuel : Nat) (b
       · cases h
       · cases h; exact Or.inr rfl
 
+/-- provenance of an `unmodelled` answer of the packet loop: with fuel beyond the
+    input length and packet decodes that consume at least one byte, the loop itself
+    never gives up — one packet decode (typed, or generic after a typed error) did -/
+theorem blocks_unmodelled_provenance {β : Type} (dec : Codec.Dec β)
+    (hprog : ∀ b x r, dec b = .ok (x, r) → r.length < b.length) :
+    ∀ (fuel : Nat) (b : Bytes) (w : String), b.length < fuel → Codec.blocks dec fuel b = .error w →
+      ∃ b' : Bytes, b'.length ≤ b.length ∧
+        (dec b' = .error (.unmodelled w) ∨ (∃ why, dec b' = .error (.err why)) ∧ Codec.generic b' = .error (.unmodelled w))
+  | 0, b, w, hf, _ => by omega
+  | fuel + 1, b, w, hf, h => by
+    unfold Codec.blocks at h
+    split at h
+    · rename_i x rest hd
+      split at h
+      · cases h
+      · rename_i w' hrec
+        cases h
+        have := hprog _ _ _ hd
+        obtain ⟨b', hl, hb'⟩ := blocks_unmodelled_provenance dec hprog fuel rest w (by omega) hrec
+        exact ⟨b', by omega, hb'⟩
+    · cases h
+    · rename_i w' hd
+      cases h
+      exact ⟨b, Nat.le_refl _, Or.inl hd⟩
+    · rename_i why hd
+      split at h
+      · cases h
+      · rename_i w' hg
+        cases h
+        exact ⟨b, Nat.le_refl _, Or.inr ⟨⟨why, hd⟩, hg⟩⟩
+      · cases h
+
 theorem codec_split_tail {η β : Type} (decH : Codec.Dec η) (decB : η → Option (Codec.Dec β))
     (msg : Bytes) (hr : HeaderRead η) (ps : PStream β)
     (h : Codec.split decH decB msg = .ok (hr, ps)) : TailPlain ps.tail := by
@@ -155,29 +333,37 @@ theorem detSig_plain (d : Codec.DetSig) : SigReadPlain (Front.detSig d) := by
 
 theorem readEnc_tail (msg : Bytes) (hr : HeaderRead EncHeader) (ps : PStream EncBlock)
     (h : Front.readEnc msg = .ok (hr, ps)) : TailPlain ps.tail := by
-  rcases orCodec_ok h with hw | ⟨_, _, hc⟩
+  rcases orWire_ok h with hc | ⟨_, _, hw⟩
+  · obtain ⟨ps0, hc0, _, ht⟩ := settle_ok hc
+    rcases ht with ht | ht
+    · rw [ht]; exact codec_split_tail _ _ msg hr ps0 hc0
+    · exact Or.inl ht
   · exact wire_split_tail _ _ msg hr ps hw
-  · exact codec_split_tail _ _ msg hr ps hc
 
 theorem readSigncrypt_tail (msg : Bytes) (hr : HeaderRead EncHeader) (ps : PStream SigncryptBlock)
     (h : Front.readSigncrypt msg = .ok (hr, ps)) : TailPlain ps.tail := by
-  rcases orCodec_ok h with hw | ⟨_, _, hc⟩
+  rcases orWire_ok h with hc | ⟨_, _, hw⟩
+  · obtain ⟨ps0, hc0, _, ht⟩ := settle_ok hc
+    rcases ht with ht | ht
+    · rw [ht]; exact codec_split_tail _ _ msg hr ps0 hc0
+    · exact Or.inl ht
   · exact wire_split_tail _ _ msg hr ps hw
-  · exact codec_split_tail _ _ msg hr ps hc
 
 theorem readSig_tail (msg : Bytes) (hr : HeaderRead SigHeader) (ps : PStream SigBlock)
     (h : Front.readSig msg = .ok (hr, ps)) : TailPlain ps.tail := by
-  rcases orCodec_ok h with hw | ⟨_, _, hc⟩
+  rcases orWire_ok h with hc | ⟨_, _, hw⟩
+  · obtain ⟨ps0, hc0, _, ht⟩ := settle_ok hc
+    rcases ht with ht | ht
+    · rw [ht]; exact codec_split_tail _ _ msg hr ps0 hc0
+    · exact Or.inl ht
   · exact wire_split_tail _ _ msg hr ps hw
-  · exact codec_split_tail _ _ msg hr ps hc
 
 theorem readDetached_plain (sigMsg : Bytes) (hr : HeaderRead SigHeader) (sr : Sign.SigRead)
     (h : Front.readDetached sigMsg = .ok (hr, sr)) : SigReadPlain sr := by
-  rcases orCodec_ok h with hw | ⟨_, _, hc⟩
+  rcases orWire_ok h with hc | ⟨_, _, hw⟩
+  · obtain ⟨d, _, rfl⟩ := codecDetached_ok hc
+    exact detSig_plain _
   · exact wire_splitDetached_plain sigMsg hr sr hw
-  · split at hc
-    · cases hc; exact detSig_plain _
-    · cases hc
 
 /-! ### the byte-level receivers unfolded -/
 
